@@ -1,10 +1,10 @@
-"""Instrumented tween factories and view derivers for C18 (importable dotted names)."""
+"""Instrumented tween factories, view derivers and predicates for C18 (importable dotted names)."""
 LOG = []
 N_TWEENS = 6
 PREFIX = 'harness.c18.tw.t'
 
 
-def _mk(name):
+def _mk(name, ident=None):
     def factory(handler, registry):
         def tween(request):
             LOG.append([0, name])
@@ -13,12 +13,21 @@ def _mk(name):
             finally:
                 LOG.append([1, name])
         return tween
-    factory._c18_id = int(name[len(PREFIX):]) + 1
+    factory._c18_id = int(name[len(PREFIX):]) + 1 if ident is None else ident
     return factory
 
 
-for _i in range(N_TWEENS):
-    globals()['t%d' % _i] = _mk('%s%d' % (PREFIX, _i))
+def reset():
+    for i in range(N_TWEENS):
+        globals()['t%d' % i] = _mk('%s%d' % (PREFIX, i))
+
+
+def rebind(name, ident):
+    """the dotted name now resolves to a (new) factory object carrying this id"""
+    globals()[name[len('harness.c18.tw.'):]] = _mk(name, ident)
+
+
+reset()
 
 
 def mk_deriver(name, ident):
@@ -33,3 +42,22 @@ def mk_deriver(name, ident):
     deriver.__name__ = 'deriver_' + name
     deriver._c18_id = ident
     return deriver
+
+
+def mk_pred(name, ident):
+    class Pred:
+        _c18_id = ident
+
+        def __init__(self, val, info):
+            self.val = val
+
+        def text(self):
+            return '%s = %r' % (name, self.val)
+
+        phash = text
+
+        def __call__(self, *args):
+            LOG.append([3, name])
+            return True
+    Pred.__name__ = 'Pred_' + name
+    return Pred
